@@ -122,6 +122,27 @@ pub fn c06(rep: &mut Rep) {
     }
 }
 
+/// hand-written systems (clause id per class): auxiliaries of a system whose only use is the fuel of a cogenerator
+pub fn c06_special(rep: &mut Rep) {
+    for (clause, text, aux_total) in [
+        ("C06.aux_of_cogeneration_only_system", "1,CONSUMO,COGEN,GASNATURAL,100\n1,PRODUCCION,EL_COGEN,30\n1,AUX,5\n3,CONSUMO,ILU,ELECTRICIDAD,10", 5.0f32),
+        ("C06.special", "1,CONSUMO,COGEN,GASNATURAL,100\n1,CONSUMO,CAL,GASNATURAL,40\n1,SALIDA,CAL,30\n1,PRODUCCION,EL_COGEN,30\n1,AUX,5\n3,CONSUMO,ILU,ELECTRICIDAD,10", 5.0),
+        ("C06.special", "1,CONSUMO,CAL,BIOMASA,100\n1,AUX,5\n2,CONSUMO,ACS,GASNATURAL,100\n2,AUX,3", 8.0),
+    ] {
+        rep.evals += 1;
+        let comps: Components = match text.parse() { Ok(c) => c, Err(e) => { rep.fail(clause, text, format!("rejected: {}", e)); continue } };
+        let w = crate::factors("PENINSULA");
+        match energy_performance(&comps, &w, 0.0, 1.0, false) {
+            Ok(ep) => {
+                let declared_el: f32 = comps.data.iter().filter_map(|c| match c { Energy::Used(e) if e.carrier == Carrier::ELECTRICIDAD && e.service.is_epb() => Some(e.values.iter().sum::<f32>()), _ => None }).sum();
+                let got = ep.balance_cr.get(&Carrier::ELECTRICIDAD).map(|b| b.used.epus_an).unwrap_or(0.0);
+                if !eq(got, declared_el + aux_total) { rep.fail(clause, text, format!("EPB electricity use in the balance is {}, declared {} + auxiliaries {}", got, declared_el, aux_total)); }
+            }
+            Err(e) => rep.fail(clause, text, format!("evaluation failed: {}", e)),
+        }
+    }
+}
+
 // ------------------------------------------------------------------------------------------------ C05
 pub fn c05(rep: &mut Rep) {
     let ids = [-1, 0, 1];
@@ -300,6 +321,34 @@ pub fn c07(rep: &mut Rep, seed: u64) {
                     }
                 }
                 if rep.evals % 211 == 1 && rep.samples.len() < 4 { rep.samples.push(json!({"factors": text})); }
+            }
+        }
+    }
+    // hand-written buildings with the regulatory factor sets (clause id per building class)
+    for (clause, b) in [
+        ("C08.aux_of_cogeneration_only_system", "1,CONSUMO,COGEN,GASNATURAL,100\n1,PRODUCCION,EL_COGEN,30\n1,AUX,5\n2,PRODUCCION,EL_INSITU,50\n3,CONSUMO,ILU,ELECTRICIDAD,10"),
+        ("C08.special", "1,CONSUMO,COGEN,GASNATURAL,100\n1,CONSUMO,CAL,GASNATURAL,40\n1,SALIDA,CAL,30\n1,PRODUCCION,EL_COGEN,30\n1,AUX,5\n2,PRODUCCION,EL_INSITU,50\n3,CONSUMO,ILU,ELECTRICIDAD,10"),
+        ("C08.special", "1,CONSUMO,ACS,TERMOSOLAR,20\n1,CONSUMO,NEPB,TERMOSOLAR,10\n1,PRODUCCION,TERMOSOLAR,50\n2,CONSUMO,ILU,ELECTRICIDAD,10"),
+        ("C08.special", "1,CONSUMO,NEPB,EAMBIENTE,10\n1,CONSUMO,CAL,EAMBIENTE,10\n1,CONSUMO,CAL,ELECTRICIDAD,5\n2,PRODUCCION,EAMBIENTE,40"),
+        ("C08.special", "1,CONSUMO,CAL,ELECTRICIDAD,5\n1,PRODUCCION,EL_INSITU,50\n2,PRODUCCION,EL_COGEN,20\n2,CONSUMO,COGEN,BIOMASA,60"),
+    ] {
+        for loc in ["PENINSULA", "CANARIAS"] {
+            let w = crate::factors(loc);
+            let comps: Components = match b.parse() { Ok(c) => c, Err(_) => continue };
+            for (k, lm) in [(0.0f32, false), (0.5, true), (1.0, false)] {
+                rep.evals += 1;
+                let full = energy_performance(&comps, &w, k, 1.0, lm);
+                let st = energy_performance(&comps, &w.clone().strip(&comps), k, 1.0, lm);
+                match (&full, &st) {
+                    (Ok(a), Ok(c)) => {
+                        let (x, y) = (a.balance.we.b, c.balance.we.b);
+                        if !(eq(x.ren, y.ren) && eq(x.nren, y.nren) && eq(x.co2, y.co2) && eq(a.balance.we.a.nren, c.balance.we.a.nren) && eq(a.rer, c.rer)) {
+                            rep.fail(clause, b, format!("{}: stripped factors give B {} instead of {}", loc, y, x));
+                        }
+                    }
+                    (Ok(_), Err(e)) => rep.fail(clause, b, format!("{}: evaluation succeeds with the full set and fails with the simplified set: {}", loc, e)),
+                    _ => {}
+                }
             }
         }
     }
